@@ -2,11 +2,14 @@
 // their slots.
 //
 //	suite "res"  operations (GetQuota / Inc / Allowed / Dec / OnRequestDrop /
-//	             OnResponseFinish / one GC pass) run to completion, in generated
+//	             OnResponseFinish / one GC pass), each on a stream with its own
+//	             transaction id and sequence id, run to completion, in generated
 //	             interleavings of several transactions, on the real quota objects
 //	             loaded through resources.NewResourceManagement();
 //	suite "eng"  request / response / early-response / proxy-error / clock-advance
-//	             histories through streams.NewStream().Initialize() + ExecuteFlow,
+//	             histories (streams with transaction id + sequence id; flows in
+//	             which the concurrency quota is not the first quota met) through
+//	             streams.NewStream().Initialize() + ExecuteFlow,
 //	             GC through the real runGC goroutines driven by the mock clock.
 //
 // Observables: verdict of every Allowed / Limiter, the slot count of every quota
@@ -43,6 +46,8 @@ type ResCase struct {
 type EStep struct {
 	Kind   string  `json:"kind"` // req resp err adv
 	R      int     `json:"txn,omitempty"`
+	Seq    int     `json:"seq"`                 // sequence id of the stream (req / resp); err: Stream.OnError knows the transaction id only
+	Ask    bool    `json:"ask_early,omitempty"` // req: carries the header that makes a "chain" flow answer it after admission
 	Dt     int64   `json:"dt_ns,omitempty"`
 	Probe  bool    `json:"probe,omitempty"`
 	Trace  []Pev   `json:"processors"`
@@ -113,7 +118,12 @@ func (rr *resRun) do(s RStep) RStep {
 }
 
 func (rr *resRun) op(r int, name string, q int, probe bool) int {
-	return rr.do(RStep{Kind: "op", Op: &Op{R: r, Name: name, Q: q}, Probe: probe}).V
+	return rr.opS(r, r, name, q, probe)
+}
+
+// opS: the operation on a stream whose sequence id differs from (or equals) the transaction id
+func (rr *resRun) opS(r, seq int, name string, q int, probe bool) int {
+	return rr.do(RStep{Kind: "op", Op: &Op{R: r, Name: name, Q: q, Seq: seq}, Probe: probe}).V
 }
 
 func coqRes(k *ResCase) string {
@@ -121,11 +131,11 @@ func coqRes(k *ResCase) string {
 		var st string
 		switch s.Kind {
 		case "tick":
-			st = "RTick " + c.Z(s.Dt)
+			st = "R2Tick " + c.Z(s.Dt)
 		case "gc":
-			st = "RGc " + c.Z(int64(s.Q))
+			st = "R2Gc " + c.Z(int64(s.Q))
 		default:
-			st = "ROp " + c.Z(int64(s.Op.R)) + " " + s.Op.coq()
+			st = "R2Op " + c.Z(int64(s.Op.R)) + " " + c.Z(int64(s.Op.Seq)) + " " + s.Op.coq()
 		}
 		return c.Tuple(st, c.Tuple(c.Z(int64(s.V)), c.ZList(s.Counts)))
 	}))
@@ -150,6 +160,21 @@ func finishRes(o *c.Out, rr *resRun) {
 		prev = s.Counts
 	}
 	o.Count("res:gen=" + strings.SplitN(k.Gen, ":", 2)[0])
+	{
+		other := false
+		for _, s := range k.Steps {
+			if s.Kind == "op" && s.Op.Seq != s.Op.R {
+				other = true
+			}
+		}
+		o.Count(fmt.Sprintf("res:some-stream-with-seq!=id=%v", other))
+		if k.Cfg.Foreign > 0 {
+			o.Count("res:rate-quota-present")
+		}
+		for _, e := range rr.x.opErrs {
+			o.Count("res:IMPLEMENTATION-ERROR " + e)
+		}
+	}
 	// phasedness (Phased.calls_phasedb) of the operation sequence: reported, not
 	// demanded — the op-soups re-acquire after a release on purpose, the tie
 	// between model and code must hold there too
@@ -244,6 +269,8 @@ func (rr *resRun) aimedDt(r *c.Rng) int64 {
 
 type txn struct {
 	id      int
+	seq     int // sequence id of its request / response streams
+	rate    int // >= 0: a rate limiter on this (fixed-window) quota comes first in its flow
 	lims    []int
 	onAbove string // respond | forward
 	onBelow string // forward | respond
@@ -255,18 +282,31 @@ type txn struct {
 	done    bool
 }
 
+func (t *txn) o(name string, q int) Op { return Op{t.id, name, q, t.seq} }
+
+// begin: what the request flow does first
+func (t *txn) begin() {
+	if t.rate >= 0 {
+		t.pending = append(t.pending, t.o("getq", t.rate)) // the rate limiter looks its quota up: first association
+	}
+	t.limiterOps(t.lims[0])
+}
+
 func (t *txn) limiterOps(q int) {
-	t.pending = append(t.pending, Op{t.id, "getq", q}, Op{t.id, "inc", q}, Op{t.id, "allowed", q})
+	t.pending = append(t.pending, t.o("getq", q), t.o("inc", q), t.o("allowed", q))
 	t.touched = append(t.touched, q)
 }
 
 // the response flows: QuotaProcessorDec of every quota the transaction went through, then OnResponseFinish
 func (t *txn) responseOps() {
 	for i := len(t.touched) - 1; i >= 0; i-- {
-		t.pending = append(t.pending, Op{t.id, "getq", t.touched[i]}, Op{t.id, "dec", t.touched[i]})
+		t.pending = append(t.pending, t.o("getq", t.touched[i]), t.o("dec", t.touched[i]))
 	}
-	t.pending = append(t.pending, Op{t.id, "finish", 0})
+	t.pending = append(t.pending, t.o("finish", 0))
 }
+
+// proxy error: Stream.OnError builds a stream with ID = SequenceID = transaction id
+func (t *txn) errorOps() { t.pending = append(t.pending, Op{t.id, "drop", 0, t.id}) }
 
 func (t *txn) after(o Op, v int) {
 	if o.Name != "allowed" {
@@ -279,7 +319,7 @@ func (t *txn) after(o Op, v int) {
 			return
 		}
 		if t.onBelow == "respond" {
-			t.pending = append(t.pending, Op{t.id, "drop", 0})
+			t.pending = append(t.pending, t.o("drop", 0))
 			t.responseOps()
 			t.done = true
 			return
@@ -288,7 +328,7 @@ func (t *txn) after(o Op, v int) {
 		return
 	}
 	if t.onAbove == "respond" {
-		t.pending = append(t.pending, Op{t.id, "drop", 0})
+		t.pending = append(t.pending, t.o("drop", 0))
 		t.responseOps()
 		t.done = true
 		return
@@ -306,6 +346,21 @@ func pickLimiters(r *c.Rng, k *Cfg) []int {
 		}
 	}
 	return lims
+}
+
+// pickSeq: the sequence id of transaction i: its own id (the proxy's default),
+// the id of an earlier transaction (a retry of that call — whether the earlier
+// attempt is still in flight or has ended is up to the schedule), or a stamp
+// several transactions share.
+func pickSeq(r *c.Rng, i int) int {
+	switch roll := r.Intn(10); {
+	case roll < 6:
+		return i
+	case roll < 9 && i > 0:
+		return r.Intn(i)
+	default:
+		return 50
+	}
 }
 
 // probes: as many fresh transactions as the chain admits when it is empty, plus one.
@@ -347,11 +402,17 @@ func (rr *resRun) expireAll(r *c.Rng) {
 // answer / proxy error / abandon) interleaved at operation granularity.
 func genTxnHistory(o *c.Out, r *c.Rng) {
 	k := &ResCase{Gen: "transactions", Cfg: genCfg(r, false)}
+	if r.Chance(1, 3) {
+		k.Cfg.Foreign = 1
+	}
 	rr := startRes(k)
 	n := r.Range(2, 5)
 	txns := make([]*txn, n)
 	for i := range txns {
-		t := &txn{id: i, lims: pickLimiters(r, &k.Cfg)}
+		t := &txn{id: i, seq: pickSeq(r, i), rate: -1, lims: pickLimiters(r, &k.Cfg)}
+		if k.Cfg.Foreign > 0 && r.Chance(2, 3) {
+			t.rate = len(k.Cfg.Rows)
+		}
 		t.onAbove = c.Pick(r, []string{"respond", "respond", "forward"})
 		t.onBelow = c.Pick(r, []string{"forward", "forward", "forward", "respond"})
 		txns[i] = t
@@ -376,12 +437,12 @@ func genTxnHistory(o *c.Out, r *c.Rng) {
 			t := txns[i]
 			op := t.pending[0]
 			t.pending = t.pending[1:]
-			t.after(op, rr.op(op.R, op.Name, op.Q, false))
+			t.after(op, rr.opS(op.R, op.Seq, op.Name, op.Q, false))
 		case roll < 75:
 			for _, t := range txns {
 				if !t.started {
 					t.started = true
-					t.limiterOps(t.lims[0])
+					t.begin()
 					break
 				}
 			}
@@ -396,10 +457,10 @@ func genTxnHistory(o *c.Out, r *c.Rng) {
 				t := c.Pick(r, open)
 				t.open = false
 				t.done = true
-				if r.Chance(2, 3) {
+				if r.Chance(3, 5) {
 					t.responseOps()
 				} else {
-					t.pending = append(t.pending, Op{t.id, "drop", 0}) // Stream.OnError
+					t.errorOps()
 				}
 			}
 		case roll < 93:
@@ -413,18 +474,18 @@ func genTxnHistory(o *c.Out, r *c.Rng) {
 		for len(t.pending) > 0 {
 			op := t.pending[0]
 			t.pending = t.pending[1:]
-			t.after(op, rr.op(op.R, op.Name, op.Q, false))
+			t.after(op, rr.opS(op.R, op.Seq, op.Name, op.Q, false))
 		}
 		if t.open {
 			switch r.Intn(5) {
 			case 0, 1:
 				t.responseOps()
 			case 2:
-				t.pending = append(t.pending, Op{t.id, "drop", 0})
+				t.errorOps()
 			}
 			t.open = false
 			for _, op := range t.pending {
-				rr.op(op.R, op.Name, op.Q, false)
+				rr.opS(op.R, op.Seq, op.Name, op.Q, false)
 			}
 			t.pending = nil
 		}
@@ -440,13 +501,25 @@ func genTxnHistory(o *c.Out, r *c.Rng) {
 // after a release, drops without a quota, GC at every edge).
 func genOpSoup(o *c.Out, r *c.Rng) {
 	k := &ResCase{Gen: "op-soup", Cfg: genCfg(r, false)}
+	if r.Chance(1, 4) {
+		k.Cfg.Foreign = 1
+	}
 	rr := startRes(k)
 	n := r.Range(2, 5)
 	names := []string{"getq", "getq", "inc", "inc", "allowed", "allowed", "allowed", "allowed", "dec", "dec", "dec", "drop", "drop", "finish"}
 	for step, budget := 0, r.Range(8, 32); step < budget; step++ {
 		switch roll := r.Intn(100); {
 		case roll < 76:
-			rr.op(r.Intn(n), c.Pick(r, names), r.Intn(len(k.Cfg.Rows)), false)
+			id, name, q := r.Intn(n), c.Pick(r, names), r.Intn(len(k.Cfg.Rows))
+			if name == "getq" && k.Cfg.Foreign > 0 && r.Chance(1, 2) {
+				q = len(k.Cfg.Rows)
+			}
+			// any stream may carry any sequence id: the transaction's own id (2/3), another transaction's, a foreign stamp
+			seq := id
+			if r.Chance(1, 3) {
+				seq = c.Pick(r, []int{r.Intn(n), 50})
+			}
+			rr.opS(id, seq, name, q, false)
 		case roll < 88:
 			rr.do(RStep{Kind: "tick", Dt: rr.aimedDt(r)})
 		default:
@@ -490,7 +563,7 @@ func genExhaustive(o *c.Out, cfg Cfg, progs [][]Op, tag string) {
 		k := &ResCase{Gen: tag, Cfg: cfg}
 		rr := startRes(k)
 		for _, op := range seq {
-			rr.op(op.R, op.Name, op.Q, false)
+			rr.opS(op.R, op.Seq, op.Name, op.Q, false)
 		}
 		leaf := len(cfg.Rows) - 1
 		rr.op(100, "getq", leaf, true)
@@ -517,40 +590,52 @@ func startEng(k *EngCase) *engRun {
 	return &engRun{x: x, k: k}
 }
 
-func (er *engRun) logOp(r int, name string, q, v int, probe bool) {
-	er.log = append(er.log, LogEntry{Kind: "op", Op: Op{r, name, q}, Verdict: v, T: er.x.now, Probe: probe})
+func (er *engRun) logOp(r, seq int, name string, q, v int, probe bool) {
+	er.log = append(er.log, LogEntry{Kind: "op", Op: Op{r, name, q, seq}, Verdict: v, T: er.x.now, Probe: probe})
 	er.cnts = append(er.cnts, nil)
 }
 
 func (er *engRun) do(s EStep) EStep {
 	switch s.Kind {
 	case "req", "resp":
-		s.Trace, s.Early, s.Err = er.x.txn(s.R, s.Kind == "resp")
+		s.Trace, s.Early, s.Err = er.x.txn(s.R, s.Seq, s.Kind == "resp", s.Ask)
 		for _, p := range s.Trace {
 			switch p.Kind {
 			case "inc":
 				if p.Apply {
-					er.logOp(s.R, "getq", p.Q, -1, s.Probe)
-					er.logOp(s.R, "inc", p.Q, -1, s.Probe)
+					er.logOp(s.R, s.Seq, "getq", p.Q, -1, s.Probe)
+					er.logOp(s.R, s.Seq, "inc", p.Q, -1, s.Probe)
 				}
+			case "touch":
+				er.logOp(s.R, s.Seq, "getq", p.Q, -1, s.Probe)
 			case "lim":
-				er.logOp(s.R, "getq", p.Q, -1, s.Probe)
-				er.logOp(s.R, "inc", p.Q, -1, s.Probe)
-				er.logOp(s.R, "allowed", p.Q, p.Below, s.Probe)
+				er.logOp(s.R, s.Seq, "getq", p.Q, -1, s.Probe)
+				er.logOp(s.R, s.Seq, "inc", p.Q, -1, s.Probe)
+				er.logOp(s.R, s.Seq, "allowed", p.Q, p.Below, s.Probe)
 			case "gen":
-				er.logOp(s.R, "drop", 0, -1, s.Probe)
+				er.logOp(s.R, s.Seq, "drop", 0, -1, s.Probe)
 			case "dec":
-				er.logOp(s.R, "getq", p.Q, -1, s.Probe)
-				er.logOp(s.R, "dec", p.Q, -1, s.Probe)
+				er.logOp(s.R, s.Seq, "getq", p.Q, -1, s.Probe)
+				er.logOp(s.R, s.Seq, "dec", p.Q, -1, s.Probe)
 			case "finish":
-				er.logOp(s.R, "finish", 0, -1, s.Probe)
+				er.logOp(s.R, s.Seq, "finish", 0, -1, s.Probe)
 			}
+		}
+		// the gateway itself ended the transaction: it processed its response, or it
+		// answered the request (ExecuteFlow returned an early-response action)
+		if s.Err == "" && (s.Kind == "resp" || s.Early) {
+			how := "response processed"
+			if s.Kind == "req" {
+				how = "answered early"
+			}
+			er.log = append(er.log, LogEntry{Kind: "end", Op: Op{R: s.R, Seq: s.Seq}, How: how, Verdict: -1, T: er.x.now, Probe: s.Probe})
+			er.cnts = append(er.cnts, nil)
 		}
 		s.Counts = er.x.counts()
 	case "err":
 		er.x.onError(s.R)
 		s.Trace = []Pev{}
-		er.logOp(s.R, "drop", 0, -1, false)
+		er.logOp(s.R, s.R, "drop", 0, -1, false)
 		s.Counts = er.x.counts()
 	case "adv":
 		segs, err := er.x.advance(s.Dt)
@@ -588,15 +673,17 @@ func (er *engRun) do(s EStep) EStep {
 func coqPev(p Pev) string {
 	switch p.Kind {
 	case "inc":
-		return "PInc " + c.Z(int64(p.Q)) + " " + c.B(p.Apply)
+		return "POld (PInc " + c.Z(int64(p.Q)) + " " + c.B(p.Apply) + ")"
 	case "lim":
-		return "PLim " + c.Z(int64(p.Q))
+		return "POld (PLim " + c.Z(int64(p.Q)) + ")"
 	case "gen":
-		return "PGen"
+		return "POld PGen"
 	case "dec":
-		return "PDec " + c.Z(int64(p.Q))
+		return "POld (PDec " + c.Z(int64(p.Q)) + ")"
 	case "finish":
-		return "PFinish"
+		return "POld PFinish"
+	case "touch":
+		return "PTouch " + c.Z(int64(p.Q))
 	}
 	panic("bad pev " + p.Kind)
 }
@@ -612,10 +699,10 @@ func coqEng(k *EngCase) string {
 					verd = append(verd, int64(p.Below))
 				}
 			}
-			items = append(items, c.Tuple("EvTxn "+c.Z(int64(s.R))+" "+c.MapList(s.Trace, coqPev),
+			items = append(items, c.Tuple("Ev2Txn "+c.Z(int64(s.R))+" "+c.Z(int64(s.Seq))+" "+c.MapList(s.Trace, coqPev),
 				c.Tuple(c.ZList(verd), c.ZList(s.Counts))))
 		case "err":
-			items = append(items, c.Tuple("EvErr "+c.Z(int64(s.R)), c.Tuple("[]", c.ZList(s.Counts))))
+			items = append(items, c.Tuple("Ev2Err "+c.Z(int64(s.R)), c.Tuple("[]", c.ZList(s.Counts))))
 		case "adv":
 			for _, g := range s.Segs {
 				if g.Gc {
@@ -623,9 +710,9 @@ func coqEng(k *EngCase) string {
 					for i, q := range g.Qs {
 						qs[i] = int64(q)
 					}
-					items = append(items, c.Tuple("EvGc "+c.ZList(qs), c.Tuple("[]", c.ZList(g.Counts))))
+					items = append(items, c.Tuple("Ev2Gc "+c.ZList(qs), c.Tuple("[]", c.ZList(g.Counts))))
 				} else {
-					items = append(items, c.Tuple("EvAdv "+c.Z(g.Dt), c.Tuple("[]", c.ZList(g.Counts))))
+					items = append(items, c.Tuple("Ev2Adv "+c.Z(g.Dt), c.Tuple("[]", c.ZList(g.Counts))))
 				}
 			}
 		}
@@ -682,6 +769,82 @@ func finishEng(o *c.Out, er *engRun) {
 	for _, h := range toHits("eng", idx, hits, k) {
 		o.Hit(h)
 	}
+	// reported, not demanded (the text: "... or at the latest when its expiry time
+	// passes"): slots a proxy-error report left to their expiry because their
+	// quota is not on the chain of the first quota the transaction met
+	if n := errLeaves(k); n > 0 {
+		o.CountN("eng:OBSERVATION proxy error left a slot to its expiry (quota not on the first-touched chain)", n)
+	}
+	seqs := false
+	for _, s := range k.Steps {
+		if (s.Kind == "req" || s.Kind == "resp") && s.Seq != s.R {
+			seqs = true
+		}
+	}
+	o.Count(fmt.Sprintf("eng:some-stream-with-seq!=id=%v", seqs))
+}
+
+// errLeaves counts, over the processors the engine executed, the (transaction,
+// quota) pairs for which a proxy-error report found the transaction admitted
+// under a quota that is not on the chain of the first quota it had looked up.
+func errLeaves(k *EngCase) int {
+	cfg := &k.Cfg.Cfg
+	first := map[int]int{}
+	held := map[int]map[int]bool{}
+	touch := func(r, q int) {
+		if _, ok := first[r]; !ok {
+			first[r] = q
+		}
+	}
+	free := func(r, q int) {
+		for _, x := range cfg.chain(q) {
+			delete(held[r], x)
+		}
+	}
+	n := 0
+	for _, s := range k.Steps {
+		switch s.Kind {
+		case "req", "resp":
+			for _, p := range s.Trace {
+				switch p.Kind {
+				case "touch":
+					touch(s.R, p.Q)
+				case "inc":
+					if p.Apply {
+						touch(s.R, p.Q)
+					}
+				case "lim":
+					touch(s.R, p.Q)
+					if p.Below == 1 {
+						if held[s.R] == nil {
+							held[s.R] = map[int]bool{}
+						}
+						for _, x := range cfg.chain(p.Q) {
+							held[s.R][x] = true
+						}
+					}
+				case "gen":
+					if f, ok := first[s.R]; ok {
+						free(s.R, f)
+					}
+					delete(first, s.R)
+				case "dec":
+					touch(s.R, p.Q)
+					free(s.R, p.Q)
+				case "finish":
+					delete(first, s.R)
+				}
+			}
+		case "err":
+			if f, ok := first[s.R]; ok {
+				free(s.R, f)
+			}
+			delete(first, s.R)
+			n += len(held[s.R])
+			delete(held, s.R)
+		}
+	}
+	return n
 }
 
 // engPhased replays Phased.calls_phasedb over the operations the engine
@@ -699,7 +862,7 @@ func engPhased(k *EngCase) (phased, byEngine bool, detail string) {
 		case "req", "resp":
 			relInCall := false
 			for _, p := range s.Trace {
-				acquire := p.Kind == "lim" || (p.Kind == "inc" && p.Apply)
+				acquire := p.Kind == "lim" || (p.Kind == "inc" && p.Apply) // "touch" acquires no slot
 				release := p.Kind == "gen" || p.Kind == "dec" || p.Kind == "finish"
 				if acquire && released[s.R] {
 					if relInCall || s.Kind == "resp" {
@@ -721,53 +884,108 @@ func replayEng(o *c.Out, old EngCase) {
 	k := &EngCase{Cfg: old.Cfg}
 	er := startEng(k)
 	for _, s := range old.Steps {
-		er.do(EStep{Kind: s.Kind, R: s.R, Dt: s.Dt, Probe: s.Probe})
+		er.do(EStep{Kind: s.Kind, R: s.R, Seq: s.Seq, Ask: s.Ask, Dt: s.Dt, Probe: s.Probe})
 	}
 	finishEng(o, er)
 }
 
+// genChainCfg: every quota on one host; the user flow consults Chain in order.
+// Aimed at: a concurrency quota that is NOT the first quota a transaction
+// meets — a rate limiter earlier in the flow, a quota no flow references (its
+// system-flow QuotaProcessorInc applies its logic before the user flow), two
+// concurrency quotas in either order.
+func genChainCfg(r *c.Rng, e *EngCfg) {
+	row := func(parent int) QRow {
+		return QRow{Max: int64(r.Range(1, 3)), TTLSec: int64(r.Range(1, 3)), GCSec: int64(r.Range(1, 3)), Parent: parent}
+	}
+	e.Style, e.Limiter, e.Limiter2 = "chain", 0, -1
+	e.OneFile = true
+	e.OnRefusal = c.Pick(r, []string{"429", "429", "429", "forward"})
+	e.ForeignFirst = r.Chance(1, 2)
+	switch r.Intn(6) {
+	case 0: // rate limiter, then the concurrency limiter
+		e.Rows, e.Foreign = []QRow{row(-1)}, 1
+		e.Chain = []int{1, 0}
+	case 1: // the other way round
+		e.Rows, e.Foreign = []QRow{row(-1)}, 1
+		e.Chain = []int{0, 1}
+	case 2: // a rate quota no flow references + the concurrency limiter
+		e.Rows, e.Foreign = []QRow{row(-1)}, 1
+		e.Chain = []int{0}
+	case 3: // a concurrency quota no flow references + the concurrency limiter (either declaration order)
+		e.Rows = []QRow{row(-1), row(-1)}
+		e.Chain = []int{r.Intn(2)}
+	case 4: // two concurrency limiters in either order, maybe a rate limiter between / before
+		e.Rows = []QRow{row(-1), row(-1)}
+		e.Chain = c.Pick(r, [][]int{{0, 1}, {1, 0}})
+		if r.Chance(1, 2) {
+			e.Foreign = 1
+			e.Chain = c.Pick(r, [][]int{{2, e.Chain[0], e.Chain[1]}, {e.Chain[0], 2, e.Chain[1]}})
+		}
+	default: // rate limiter, then a two-level chain (child limiter, parent above)
+		e.Rows, e.Foreign = []QRow{row(-1), row(0)}, 1
+		e.Chain = c.Pick(r, [][]int{{2, 1}, {1, 2}, {2, 0, 1}})
+	}
+}
+
 func genEngHistory(o *c.Out, r *c.Rng) {
 	k := &EngCase{}
-	k.Cfg.Cfg = genCfg(r, true)
-	k.Cfg.Limiter = r.Intn(len(k.Cfg.Rows))
-	if len(k.Cfg.Rows) > 1 && r.Chance(2, 3) {
-		k.Cfg.Limiter = len(k.Cfg.Rows) - 1
-	}
-	k.Cfg.Style = c.Pick(r, []string{"429", "429", "early", "forward", "two"})
-	k.Cfg.Limiter2 = -1
-	if k.Cfg.Style == "two" {
-		// a second, unrelated root quota on the same host, declared last
-		k.Cfg.OneFile = true
-		k.Cfg.Rows = append(k.Cfg.Rows, QRow{Max: int64(r.Range(1, 3)), TTLSec: int64(r.Range(1, 3)), GCSec: int64(r.Range(1, 3)), Parent: -1})
-		k.Cfg.Limiter2 = len(k.Cfg.Rows) - 1
-		if r.Chance(1, 3) { // or the other way round: the unrelated root first in the flow
-			k.Cfg.Limiter, k.Cfg.Limiter2 = k.Cfg.Limiter2, k.Cfg.Limiter
+	if r.Chance(2, 5) {
+		genChainCfg(r, &k.Cfg)
+	} else {
+		k.Cfg.Cfg = genCfg(r, true)
+		k.Cfg.Limiter = r.Intn(len(k.Cfg.Rows))
+		if len(k.Cfg.Rows) > 1 && r.Chance(2, 3) {
+			k.Cfg.Limiter = len(k.Cfg.Rows) - 1
+		}
+		k.Cfg.Style = c.Pick(r, []string{"429", "429", "early", "forward", "two"})
+		k.Cfg.Limiter2 = -1
+		if k.Cfg.Style == "two" {
+			// a second, unrelated root quota on the same host, declared last
+			k.Cfg.OneFile = true
+			k.Cfg.Rows = append(k.Cfg.Rows, QRow{Max: int64(r.Range(1, 3)), TTLSec: int64(r.Range(1, 3)), GCSec: int64(r.Range(1, 3)), Parent: -1})
+			k.Cfg.Limiter2 = len(k.Cfg.Rows) - 1
+			if r.Chance(1, 3) { // or the other way round: the unrelated root first in the flow
+				k.Cfg.Limiter, k.Cfg.Limiter2 = k.Cfg.Limiter2, k.Cfg.Limiter
+			}
 		}
 	}
+	chain := k.Cfg.Style == "chain"
 	er := startEng(k)
 	n := r.Range(2, 5)
 	next := 0
 	open := []int{}
+	seqOf := map[int]int{}
 	dts := []int64{sec - deltaNs, sec - deltaNs - 1, sec - deltaNs + 1, deltaNs, deltaNs - 1, deltaNs + 1, sec, sec / 2, 2 * sec, 1}
 	for step, budget := 0, r.Range(5, 16); step < budget; step++ {
 		switch roll := r.Intn(100); {
 		case roll < 40 && next < n:
-			s := er.do(EStep{Kind: "req", R: next})
+			seqOf[next] = pickSeq(r, next)
+			s := er.do(EStep{Kind: "req", R: next, Seq: seqOf[next], Ask: chain && r.Chance(2, 5)})
 			if !s.Early && s.Err == "" {
 				open = append(open, next)
 			}
 			next++
 		case roll < 60 && len(open) > 0:
 			i := r.Intn(len(open))
-			er.do(EStep{Kind: "resp", R: open[i]})
+			er.do(EStep{Kind: "resp", R: open[i], Seq: seqOf[open[i]]})
 			open = append(open[:i], open[i+1:]...)
 		case roll < 70 && len(open) > 0:
 			i := r.Intn(len(open))
-			er.do(EStep{Kind: "err", R: open[i]})
+			er.do(EStep{Kind: "err", R: open[i], Seq: open[i]})
 			open = append(open[:i], open[i+1:]...)
 		case roll < 74 && next > 0:
 			// noise: an event for a transaction that already ended (or is unknown)
-			er.do(EStep{Kind: c.Pick(r, []string{"resp", "err"}), R: r.Intn(next + 1)})
+			t := r.Intn(next + 1)
+			sq, ok := seqOf[t]
+			if !ok {
+				sq = t
+			}
+			if r.Chance(1, 2) {
+				er.do(EStep{Kind: "resp", R: t, Seq: sq})
+			} else {
+				er.do(EStep{Kind: "err", R: t, Seq: t})
+			}
 		default:
 			er.do(EStep{Kind: "adv", Dt: c.Pick(r, dts)})
 		}
@@ -775,12 +993,12 @@ func genEngHistory(o *c.Out, r *c.Rng) {
 	for _, t := range open {
 		switch r.Intn(5) {
 		case 0, 1:
-			er.do(EStep{Kind: "resp", R: t})
+			er.do(EStep{Kind: "resp", R: t, Seq: seqOf[t]})
 		case 2:
-			er.do(EStep{Kind: "err", R: t})
+			er.do(EStep{Kind: "err", R: t, Seq: t})
 		}
 	}
-	if r.Chance(2, 3) {
+	if r.Chance(3, 5) {
 		var mt, mg int64
 		for _, row := range k.Cfg.Rows {
 			if row.TTLSec > mt {
@@ -793,9 +1011,17 @@ func genEngHistory(o *c.Out, r *c.Rng) {
 		er.do(EStep{Kind: "adv", Dt: (mt+mg)*sec + sec + sec/2})
 	}
 	np := int64(1 << 30)
-	guard := k.Cfg.chain(k.Cfg.Limiter)
-	if k.Cfg.Style == "two" {
-		guard = append(guard, k.Cfg.chain(k.Cfg.Limiter2)...)
+	var guard []int
+	switch {
+	case chain: // every concurrency quota guards the URL: referenced by the flow or not
+		for q := range k.Cfg.Rows {
+			guard = append(guard, q)
+		}
+	default:
+		guard = k.Cfg.chain(k.Cfg.Limiter)
+		if k.Cfg.Style == "two" {
+			guard = append(guard, k.Cfg.chain(k.Cfg.Limiter2)...)
+		}
 	}
 	for _, x := range guard {
 		if k.Cfg.Rows[x].Max < np {
@@ -806,11 +1032,10 @@ func genEngHistory(o *c.Out, r *c.Rng) {
 		np++
 	}
 	for i := int64(0); i < np; i++ {
-		er.do(EStep{Kind: "req", R: 100 + int(i), Probe: true})
+		er.do(EStep{Kind: "req", R: 100 + int(i), Seq: 100 + int(i), Probe: true})
 	}
 	finishEng(o, er)
 }
-
 
 // fixed boundary histories that run first (and give minimal replays)
 func genCorpus(o *c.Out) {
@@ -913,7 +1138,7 @@ func genCorpus(o *c.Out) {
 		rr.op(0, "getq", 1, false)
 		rr.op(0, "dec", 1, false)
 		rr.op(0, "finish", 0, false)
-		lim(rr, 1, 1, false) // child free again, parent still full: refused, keeps the child's slot ...
+		lim(rr, 1, 1, false)       // child free again, parent still full: refused, keeps the child's slot ...
 		rr.op(1, "drop", 0, false) // ... which the 429's drop gives back (held prefix = the child alone)
 		rr.do(RStep{Kind: "tick", Dt: sec + sec/2 + deltaNs})
 		rr.do(RStep{Kind: "gc", Q: 0})
@@ -944,15 +1169,15 @@ func genCorpus(o *c.Out) {
 			k.Cfg.Limiter2 = -1
 			er := startEng(k)
 			for i := 0; i < 4; i++ {
-				er.do(EStep{Kind: "req", R: i})
+				er.do(EStep{Kind: "req", R: i, Seq: i})
 			}
-			er.do(EStep{Kind: "resp", R: 0})
-			er.do(EStep{Kind: "req", R: 4})
-			er.do(EStep{Kind: "err", R: 1})
-			er.do(EStep{Kind: "req", R: 5})
+			er.do(EStep{Kind: "resp", R: 0, Seq: 0})
+			er.do(EStep{Kind: "req", R: 4, Seq: 4})
+			er.do(EStep{Kind: "err", R: 1, Seq: 1})
+			er.do(EStep{Kind: "req", R: 5, Seq: 5})
 			er.do(EStep{Kind: "adv", Dt: 2 * sec})
 			for i := 0; i < 4; i++ {
-				er.do(EStep{Kind: "req", R: 100 + i, Probe: true})
+				er.do(EStep{Kind: "req", R: 100 + i, Seq: 100 + i, Probe: true})
 			}
 			finishEng(o, er)
 		}
@@ -965,13 +1190,13 @@ func genCorpus(o *c.Out) {
 		k.Cfg.Cfg = Cfg{Rows: []QRow{{Max: 1, TTLSec: 3, GCSec: 1, Parent: -1}, {Max: 1, TTLSec: 1, GCSec: 1, Parent: 0}}}
 		k.Cfg.Limiter, k.Cfg.Limiter2, k.Cfg.Style = 1, -1, "429"
 		er := startEng(k)
-		er.do(EStep{Kind: "req", R: 0})
+		er.do(EStep{Kind: "req", R: 0, Seq: 0})
 		er.do(EStep{Kind: "adv", Dt: 2 * sec})
-		er.do(EStep{Kind: "resp", R: 0})
-		er.do(EStep{Kind: "req", R: 1})
-		er.do(EStep{Kind: "req", R: 2})
+		er.do(EStep{Kind: "resp", R: 0, Seq: 0})
+		er.do(EStep{Kind: "req", R: 1, Seq: 1})
+		er.do(EStep{Kind: "req", R: 2, Seq: 2})
 		er.do(EStep{Kind: "adv", Dt: 2 * sec})
-		er.do(EStep{Kind: "req", R: 100, Probe: true})
+		er.do(EStep{Kind: "req", R: 100, Seq: 100, Probe: true})
 		finishEng(o, er)
 	}
 	// two unrelated quotas in one flow: the early answer (refused by the second) must free the first
@@ -980,13 +1205,13 @@ func genCorpus(o *c.Out) {
 		k.Cfg.Cfg = Cfg{OneFile: true, Rows: []QRow{{Max: 1, TTLSec: 3, GCSec: 3, Parent: -1}, {Max: 1, TTLSec: 3, GCSec: 3, Parent: -1}}}
 		k.Cfg.Limiter, k.Cfg.Limiter2, k.Cfg.Style = 0, 1, "two"
 		er := startEng(k)
-		er.do(EStep{Kind: "req", R: 0}) // admitted by both
-		er.do(EStep{Kind: "req", R: 1}) // refused by the first
-		er.do(EStep{Kind: "err", R: 0}) // frees the first quota only
-		er.do(EStep{Kind: "req", R: 2}) // admitted by the first, refused by the second: early answer
-		er.do(EStep{Kind: "req", R: 3}) // the first quota must be free again
+		er.do(EStep{Kind: "req", R: 0, Seq: 0}) // admitted by both
+		er.do(EStep{Kind: "req", R: 1, Seq: 1}) // refused by the first
+		er.do(EStep{Kind: "err", R: 0, Seq: 0}) // frees the first quota only
+		er.do(EStep{Kind: "req", R: 2, Seq: 2}) // admitted by the first, refused by the second: early answer
+		er.do(EStep{Kind: "req", R: 3, Seq: 3}) // the first quota must be free again
 		er.do(EStep{Kind: "adv", Dt: 7 * sec})
-		er.do(EStep{Kind: "req", R: 100, Probe: true})
+		er.do(EStep{Kind: "req", R: 100, Seq: 100, Probe: true})
 		finishEng(o, er)
 	}
 }
@@ -995,14 +1220,19 @@ func genCorpus(o *c.Out) {
 
 func main() {
 	o := c.NewOut("C02")
-	o.DeclareSuite("res", "From Verif Require Import C02.Model.", "case_res", "run_res")
-	o.DeclareSuite("eng", "From Verif Require Import C02.Model.", "case_eng", "run_eng")
+	o.DeclareSuite("res", "From Verif Require Import C02.Model C02.Model2.", "case_res2", "run_res2h")
+	o.DeclareSuite("eng", "From Verif Require Import C02.Model C02.Model2.", "case_eng2", "run_eng2h")
 	o.Rule("res: quota forests of 1-3 concurrent quotas (max 0-3, ttl 1-3 s, up to 3 levels, an unrelated second root), " +
 		"2-5 transactions; generated interleavings, at operation granularity, of limiter chains followed by response / early answer / " +
 		"proxy error / abandon, unstructured operation sequences, and all interleavings of small programs; clock readings aimed " +
 		"1 ns around slot expiries with and without the 10 ms slack; GC passes; final fresh probes. " +
 		"eng: one or two-level chains, three flow styles (429 on refusal, early answer after admission, forward on refusal), " +
-		"request / response / proxy error / clock advance with the real GC goroutines woken at their deadlines; final fresh probes. " +
+		"request / response / proxy error / clock advance with the real GC goroutines woken at their deadlines; final fresh probes; " +
+		"flow style 'chain': every quota on one host, limiters on concurrency and rate (fixed-window) quotas in every order, quotas no flow " +
+		"references (their system-flow Inc runs first), a per-request early answer AFTER admission (Filter + GenerateResponse), each shape with " +
+		"every end (response, early answer, proxy error, abandon + expiry). " +
+		"streams (both suites): every request / response stream carries a sequence id = its own transaction id (6/10), the id of an earlier " +
+		"transaction (retry: overlapping or not), or a stamp several transactions share; the proxy-error stream has sequence id = transaction id. " +
 		"distinct = distinct (configuration, steps, observations); non-trivial = the history contains a refusal and a slot being given back")
 	var raw struct {
 		Gen   string `json:"generator"`
@@ -1032,16 +1262,17 @@ func main() {
 		t0 = time.Now()
 	}
 	genCorpus(o)
+	genCorpus2(o)
 	lap("corpus")
 	// all interleavings of two limiter-then-response programs, one and two levels
 	one := Cfg{Rows: []QRow{{Max: 1, TTLSec: 1, GCSec: hugeGC, Parent: -1}}}
 	two := Cfg{Rows: []QRow{{Max: 2, TTLSec: 2, GCSec: hugeGC, Parent: -1}, {Max: 1, TTLSec: 1, GCSec: hugeGC, Parent: 0}}}
 	prog := func(id, q int, end string) []Op {
-		p := []Op{{id, "getq", q}, {id, "allowed", q}}
+		p := []Op{{id, "getq", q, id}, {id, "allowed", q, id}}
 		if end == "dec" {
-			p = append(p, Op{id, "dec", q}, Op{id, "finish", 0})
+			p = append(p, Op{id, "dec", q, id}, Op{id, "finish", 0, id})
 		} else {
-			p = append(p, Op{id, "drop", 0})
+			p = append(p, Op{id, "drop", 0, id})
 		}
 		return p
 	}
